@@ -1,6 +1,7 @@
 (* C01 — refutations (where the faithful model of the Go code violates the reference evaluator: the known findings,
    each outside the guard) and non-vacuity examples.  The general proofs are in Sim.v, Ext.v and Laws.v. *)
 From C01 Require Export Model Spec Sim Ext Laws Wf.
+From C01 Require Import Corr.
 Open Scope string_scope.
 
 Definition I (z : Z) : expr := EConst (DInt z).
@@ -174,6 +175,55 @@ Definition w_dolist_values :=
 Example loop_form_primary_value :
   forallb (fun m => match fst (run m 60 w_dotimes_values), fst (run m 60 w_dolist_values) with
                     | Ok (VInt 2), Ok (VInt 3) => true | _, _ => false end) [Slip; Ref; Chk] = true.
+Proof. vm_compute; reflexivity. Qed.
+
+(* ---------------------------------------------------------------------------- zero values in single-value positions *)
+(* every place that takes ONE value from a form looks at the primary value only (in every mode; the place where a
+   variable is bound: in the reference evaluator), and a form that returns NO value counts as nil there *)
+Lemma single_value_primary : forall m v v', primary v = primary v' ->
+  arg_red m v = arg_red m v' /\ truthy m v = truthy m v' /\ or_step m v = or_step m v' /\ store_red Ref v = store_red Ref v'.
+Proof. intros m v v' H. unfold arg_red, truthy, or_step, store_red. rewrite H. repeat split; reflexivity. Qed.
+Lemma zero_values_as_nil : forall m,
+  arg_red m (VValues []) = Ok VNil /\ truthy m (VValues []) = Ok false /\ or_step m (VValues []) = Ok None /\
+  store_red Ref (VValues []) = Ok VNil.
+Proof. intros m. repeat split; reflexivity. Qed.
+(* an argument form that returns no value contributes nil to the argument list, whatever the function and the mode *)
+Lemma zero_value_argument : forall m ev sc st e es st1 vs st2,
+  ev st sc e = (Ok (VValues []), st1) -> ev_args m ev st1 sc es = (Ok vs, st2) ->
+  ev_args m ev st sc (e :: es) = (Ok (VNil :: vs), st2).
+Proof. intros m ev sc st e es st1 vs st2 H1 H2. simpl. rewrite H1. simpl. rewrite H2. reflexivity. Qed.
+(* the positions, as contexts: (values) in the hole is observably the same as nil in the hole - same value(s), same
+   trace - in the model of the Go code and in the reference evaluator *)
+Definition sv_contexts : list (expr -> expr) :=
+  [ (fun x => EPrim PList [I 1; x; I 2]); (fun x => EPrim PNull [x]); (fun x => EPrim PNot [x]);
+    (fun x => EFuncall (ELambda ["p"] [EIf (EVar "p") (I 1) (Some (I 2))]) [x]);
+    (fun x => EApply (ELambda ["p"; "q"] [EPrim PList [EVar "p"; EVar "q"]]) [x; EPrim PList [I 3]]);
+    (fun x => EPrim PList [ETr 1 x]); (fun x => EMvb ["a"; "b"] (EValues [x; I 9]) [EPrim PList [EVar "a"; EVar "b"]]);
+    (fun x => ECase x [([DInt 1], [I 1])] (Some [I 2])); (fun x => EPrim PList [EProg1 x [I 5]]);
+    (fun x => EProgn [x; I 5]); (fun x => EPrim PList [EProgn [I 1; x]]);
+    (fun x => ELet [("v", x)] [EPrim PList [EVar "v"; EPrim PNull [EVar "v"]; EIf (EVar "v") (I 1) (Some (I 2))]]);
+    (fun x => ELetStar [("v", x); ("w", EVar "v")] [EPrim PList [EVar "v"; EVar "w"]]);
+    (fun x => ELet [("v", I 5)] [EPrim PList [ESetq [("v", x)]; EVar "v"]]);
+    (fun x => EIf x (I 1) (Some (I 2))); (fun x => EWhen x [I 1]); (fun x => EUnless x [I 1]);
+    (fun x => ECond [(x, [I 1]); (ET, [I 2])]); (fun x => ECond [(x, []); (ET, [I 2])]);
+    (fun x => EAnd [x; I 1]); (fun x => EOr [x; I 3]);
+    (fun x => EDo false [("i", I 0, Some (EPrim PInc [EVar "i"]))] (EOr [EPrim PGt [EVar "i"; I 1]; x]) [EVar "i"] []);
+    (fun x => EDo true [("v", x, Some x); ("i", I 0, Some (EPrim PInc [EVar "i"]))] (EPrim PGt [EVar "i"; I 1]) [EPrim PList [EVar "v"]] []);
+    (fun x => ELet [("r", I 0)] [EDolist "v" x (Some (EVar "r")) [ESetq [("r", EPrim PAdd [EVar "r"; I 1])]]]);
+    (fun x => EDotimes "i" x (Some (EVar "i")) []);
+    (fun x => EMapcar (ELambda ["v"] [x]) [EQuote (DList [DInt 1; DInt 2])]);
+    (fun x => EFuncall (ELambdaO [] [("o", x)] [EPrim PList [EVar "o"; EPrim PNull [EVar "o"]]]) []) ].
+Definition same_obs (a b : result) : bool :=
+  match fst a, fst b with
+  | Ok v, Ok w => val_eqb v w
+  | Er e, Er e' => err_eqb e e'
+  | _, _ => false
+  end && zs_eqb (trace (snd a)) (trace (snd b)).
+Example zero_values_behave_as_nil :
+  forallb (fun m => forallb (fun c => same_obs (run m 80 [c (EValues [])]) (run m 80 [c ENil]) &&
+                                      same_obs (run m 80 [c (EProgn [EValues []])]) (run m 80 [c ENil]) &&
+                                      same_obs (run m 80 [c (EFuncall (ELambda [] [EValues []]) [])]) (run m 80 [c ENil]))
+                             sv_contexts) [Slip; Ref] = true.
 Proof. vm_compute; reflexivity. Qed.
 
 (* ------------------------------------------------------------------------------------------ non-vacuity *)
